@@ -516,6 +516,30 @@ func checkCase(c Case, s *rt.Section) (fails []*rt.Failure, outcome string, info
 	for _, f := range fs {
 		fails = append(fails, s.NewFailure(f.oracle, f.sig, c, f.observed+"\n--- error text ---\n"+text, f.expected))
 	}
+	// the same text as the body of a host-built function value that two VMs share: the VM that calls it gets the body's
+	// syntax error in its own language, whichever VM called first
+	if len(c.Input) < 200 && c.Global == 0 && c.Custom == 0 {
+		call := func(fn *ds.VMValue, lang int) (string, *rt.PanicInfo) {
+			vm := ds.NewVM()
+			vm.Config.ParseErrorLanguage = lang
+			vm.Attrs.Store("bf", fn)
+			var err error
+			pi := rt.Guard(func() { err = vm.Run("bf()") })
+			if err != nil {
+				return err.Error(), pi
+			}
+			return "", pi
+		}
+		mk := func() *ds.VMValue { return ds.NewFunctionValRaw(&ds.FunctionData{Expr: c.Input, Name: "bf"}) }
+		alone, pa := call(mk(), c.Lang)
+		shared := mk()
+		_, pb := call(shared, (c.Lang+1)%3)
+		after, pc := call(shared, c.Lang)
+		if pa == nil && pb == nil && pc == nil && alone != after {
+			fails = append(fails, s.NewFailure("own-language", "lang:shared-function-body-error", c,
+				"called after a VM of another language called the same function value: "+after, "as when called first: "+alone))
+		}
+	}
 	if c.ViaRun {
 		t2, rej2, pi2 := runText(c, c.Input)
 		if pi2 == nil && (!rej2 || t2 != text) {
